@@ -255,12 +255,30 @@ func compareObs(a, b *Observation, withReport bool) (string, string) {
 		return "exit", fmt.Sprintf("exit class %s (status %d) vs model %s (status %d)\nstderr here: %s\nstderr model: %s",
 			b.ExitClass, b.Exit, a.ExitClass, a.Exit, tail([]byte(b.Stderr), 600), tail([]byte(a.Stderr), 600))
 	}
-	if strings.Join(a.Written, ",") != strings.Join(b.Written, ",") {
-		return "files-written", fmt.Sprintf("files written %v vs model %v", b.Written, a.Written)
-	}
-	for _, f := range a.Written {
-		if a.Files[f] != b.Files[f] {
-			return f, firstDiff([]byte(a.Files[f]), []byte(b.Files[f]))
+	if a.ExitClass == "ok" {
+		// A successful generation: what the directory holds afterwards is the
+		// output, whether or not this process had to rewrite a file (a generator
+		// may legitimately leave a file alone whose bytes are already right).
+		for _, f := range GenFiles {
+			da, oka := a.Disk[f]
+			db, okb := b.Disk[f]
+			if oka != okb {
+				return "files-present", fmt.Sprintf("%s present: %v, in the model: %v", f, okb, oka)
+			}
+			if da != db {
+				return f, firstDiff([]byte(da), []byte(db))
+			}
+		}
+	} else {
+		// A failed generation: only what this process wrote is its output;
+		// stale files it did not touch are not.
+		if strings.Join(a.Written, ",") != strings.Join(b.Written, ",") {
+			return "files-written", fmt.Sprintf("files written %v vs model %v", b.Written, a.Written)
+		}
+		for _, f := range a.Written {
+			if a.Files[f] != b.Files[f] {
+				return f, firstDiff([]byte(a.Files[f]), []byte(b.Files[f]))
+			}
 		}
 	}
 	if withReport && a.Report != b.Report {
